@@ -233,6 +233,21 @@ func streamNssai(c *ctx) {
 			checkNssaiDecode(c, buf, true)
 		}
 	}
+	// far more entries than the 8 of TS 24.501 9.11.3.37: UE-supplied contents are not bound by the maximum, and a
+	// result container sized from it (fixed array, pre-sized slice) must not be overrun
+	for _, n := range []int{10, 15, 16, 17, 31, 32, 33, 64, 65, 100} {
+		for rep := 0; rep < 2; rep++ {
+			var buf []byte
+			for i := 0; i < n; i++ {
+				f := forms[(i+rep)%5]
+				if rep == 1 {
+					f = forms[0]
+				}
+				buf = append(buf, specEncodeSnssai(randSnssaiForm(c.r, f))...)
+			}
+			checkNssaiDecode(c, buf, true)
+		}
+	}
 	// library-encoded lists (SnssaiToNas emits forms 1 and 4 only)
 	c.stream = "nssai-lib-encoded"
 	for n := 1; n <= 8; n++ {
@@ -727,6 +742,16 @@ func streamLadn(c *ctx) {
 			l = append(l, dnnOfLen(c.r, c.r.Rng.Pick(0, 1, 5, 20, 63, 100, 255)))
 		}
 		check(l)
+	}
+	// more entries than the 8 of TS 24.501 9.11.3.29 (the contents come from the UE, which is not bound by it):
+	// many short entries, and n zero-length entries (= n octets 0x00)
+	for _, n := range []int{9, 10, 15, 16, 17, 31, 32, 33, 64, 65, 100, 255, 256, 300} {
+		l := make([]string, n)
+		for k := range l {
+			l[k] = dnnOfLen(c.r, c.r.Rng.Pick(0, 0, 1, 2, 5))
+		}
+		check(l)
+		check(make([]string, n))
 	}
 	// every truncation point / every length octet at the second entry
 	c.stream = "ladn-indication-malformed"
